@@ -9,7 +9,7 @@ from inspect import Signature, getsourcelines
 from inspect import signature as getsignature
 from typing import TYPE_CHECKING, Any
 
-from _griffe.agents.nodes.runtime import ObjectNode
+from _griffe.agents.nodes.runtime import ObjectNode, _builtin_module_names
 from _griffe.collections import LinesCollection, ModulesCollection
 from _griffe.enumerations import Kind, ParameterKind
 from _griffe.expressions import safe_get_annotation
@@ -307,7 +307,12 @@ class Inspector:
         for base in node.obj.__bases__:
             if base is object:
                 continue
-            bases.append(f"{base.__module__}.{base.__qualname__}")
+            # Same rule as `ObjectNode.alias_target_path`: objects of built-in modules lie about
+            # their module path (`_io.StringIO`), prefer the public one (`io.StringIO`).
+            base_module = base.__module__
+            if base_module.lstrip("_") in _builtin_module_names:
+                base_module = base_module.lstrip("_")
+            bases.append(f"{base_module}.{base.__qualname__}")
 
         lineno, endlineno = self._get_linenos(node)
         class_ = Class(
